@@ -17,7 +17,12 @@
   * `World`    — inputs recorded from the real run (the index tensors returned by `torch.randperm(n)` /
                  `torch.randint(n, (size,))`, in the order they were requested) and the first exception, if any.
 
+  * `okRun`    — (specification side) the call raises no exception and every node's caller-preconditions hold;
+    `shapeOf` / `SizeStable` — the node's `.size` is, by construction alone, the number of rows of every call.
+
   Data are `List (List Int)`: spy points are integers (exactly representable float64 in the real run).
+  Outside the modelled domain (rejected by `build`): composites without sub-generators, SamplerGenerator below
+  another combinator.
 -/
 namespace NdeVerif.GenComb
 
@@ -75,11 +80,34 @@ def gather (ix : List Nat) (c : List Val) : List Val := ix.map (fun i => c.getD 
 
 /-! ### data operations of the composites -/
 
+inductive Err
+  | valueError      -- Ensemble: children's .size differ; Predefined: lengths differ
+  | indexError      -- boolean mask / index does not fit a column
+  | runtimeError    -- torch.randint(0, …); torch.cat of 0-dim tensors
+  | typeError       -- torch.cat of a tensor and a list
+  | badIndices      -- the recorded index tensor is not what randperm/randint can return (harness fault)
+  | empty           -- composite without sub-generators (outside the modelled domain)
+  | unsupported     -- SamplerGenerator below another combinator (outside the modelled domain)
+  deriving Repr, DecidableEq
+
+
 /-- ConcatGenerator: `[torch.cat(seg) for seg in zip(*all_examples)]` (zip truncates to the fewest dimensions) -/
 def catCols : List Data → Data
   | [] => []
   | [d] => d
   | d :: ds => List.zipWith (· ++ ·) d (catCols ds)
+
+/-- what `ConcatGenerator.get_examples` does with the children's return values.  One-dimensional data are bare tensors,
+several dimensions a list/tuple.  `isinstance(all_examples[0], Tensor)` with a list among the others: `torch.cat` raises
+TypeError; a list first and a bare tensor among the others: `zip(*…)` iterates the tensor's entries (0-dim tensors) and
+`torch.cat` raises RuntimeError unless the zip is empty.  Otherwise the columns are concatenated. -/
+def concatOutcome (ds : List Data) : Data × Option Err :=
+  if ds.any (fun d => d.length == 1) && ds.any (fun d => d.length != 1) then
+    if (ds.headD []).length == 1 then ([], some .typeError)
+    else if ds.foldr (fun d acc => min (if d.length == 1 then nrows d else d.length) acc) (ds.headD []).length == 0
+      then ([], none)
+    else ([], some .runtimeError)
+  else (catCols ds, none)
 
 def prodLen : List (List Val) → Nat
   | [] => 1
@@ -145,15 +173,6 @@ def Obj.size : Obj → Nat
   | .predefined s _ => s
   | .sampler s _ => s
 
-inductive Err
-  | valueError      -- Ensemble: children's .size differ; Predefined: lengths differ
-  | indexError      -- boolean mask / index does not fit a column
-  | runtimeError    -- torch.randint(0, …)
-  | badIndices      -- the recorded index tensor is not what randperm/randint can return (harness fault)
-  | empty           -- composite without sub-generators (outside the modelled domain)
-  | unsupported     -- SamplerGenerator below another combinator (outside the modelled domain)
-  deriving Repr, DecidableEq
-
 structure World where
   idx : List (List Nat)      -- recorded index tensors, in request order
   err : Option Err := none   -- first exception
@@ -208,7 +227,8 @@ def run : Obj → World → Data × Obj × World
     (leafData id dims ctr n, .leaf s id dims sizes (calls + 1) (ctr + n), w)
   | .concat s gs, w =>
     let r := runList gs w
-    (catCols r.1, .concat s r.2.1, r.2.2)
+    let c := concatOutcome r.1
+    (c.1, .concat s r.2.1, match c.2 with | some e => r.2.2.fail e | none => r.2.2)
   | .ensemble s gs, w =>
     let r := runList gs w
     (r.1.flatten, .ensemble s r.2.1, r.2.2)
@@ -317,7 +337,9 @@ def build : GenExpr → World → Except Err (Obj × World)
     | .error e => .error e
     | .ok (o, w1) =>
       let r := run o w1
-      .ok (.static o.size r.2.1 r.1, r.2.2)
+      match r.2.2.err with          -- an exception of the constructor-time draw leaves the constructor
+      | some e => .error e
+      | none => .ok (.static o.size r.2.1 r.1, r.2.2)
   | .predefined xs, w =>
     match mkPredefined xs with
     | .error e => .error e
